@@ -15,6 +15,7 @@ mp = O.mp
 PI = np.pi
 SHARDS = {"quick": 16, "thorough": 16}
 TIMEOUT = {"quick": 900, "thorough": 6 * 3600}
+REQUIRED_REACH = ['taylor_series_near_zero', 'SO3QuatLieGroup.log', 'SO3MrpLieGroup.exp', 'SE2LieGroup.log', 'SE3LieAlgebra.left_Q', 'SE23LieGroup.calculate_N', 'SE23LieGroup.log']
 RULE = ("rotation magnitudes theta on a log grid from 1e-320 to 1 plus exactly 0 and 5e-324, plus the two adjacent doubles on "
         "each side of every comparison node of the function under test found by bisection in theta (switches at theta~1e-3, "
         "0.0316, 0.0632), on random axes with translations in [-1,1]; reference = mpmath at 50 digits (matrix exponential by "
